@@ -13,6 +13,10 @@ def gen_c20(rnd):
     std = [{"reading": rd(3), "stem": "".join(rnd.choice(KANJI) for _ in range(rnd.randint(1, 2))), "speech": rnd.choice([{"Noun": "Common"}, {"Noun": "Proper"}, {"Noun": "Sahen"}, {"Verb": {"Godan": "カ"}}, "Adverb"])} for _ in range(rnd.randint(2, 6))]
     pre = [{"reading": rd(2), "stem": rnd.choice(KANJI), "speech": {"Affix": "Prefix"}} for _ in range(rnd.randint(1, 2))]
     suf = [{"reading": rd(2), "stem": rnd.choice(KANJI), "speech": {"Affix": "Suffix"}} for _ in range(rnd.randint(1, 2))]
+    if rnd.random() < 0.5:
+        # two affixes with one reading (新/しん, 真/しん): their compounds share a reading and must both be learned
+        a = rnd.choice(pre + suf)
+        (pre if a["speech"] == {"Affix": "Prefix"} else suf).append({"reading": a["reading"], "stem": rnd.choice([k for k in KANJI if k != a["stem"]]), "speech": a["speech"]})
     par = [{"reading": rd(1), "stem": "は", "speech": {"Particle": "Adverbial"}}]
     base = {"std": std, "anc": pre + suf + par, "tankan": []}
     reqs, plan = [], []
@@ -70,56 +74,81 @@ def run(tier, seed):
         rs = harness([{"op": "kkc_query", "dict": d, "context": "Normal", "freq": [], "input": r["input"], "n": 100} for r in reqs])
         reqs2, exp = [], []
         nconv = 0
-        for rq, r in zip(reqs, rs):
+        # conversions that are never confirmed: the sessions of later conversions must still be confirmable
+        for _ in range(rnd.choice([0, 0, 0, 127, 128, 129] if tier == "quick" else [0, 0, 127, 128, 129, 255, 256, 1023, 1024, 1025])):
+            reqs2.append({"kind": "convert", "input": base["std"][0]["reading"], "context": "Normal"})
+            nconv += 1
+        learned = []
+        pairs = list(zip(reqs, rs))
+        if pairs and rnd.random() < 0.7:
+            pairs.insert(1, pairs[0])            # the same input again: another compound of the same reading
+        for rq, r in pairs:
             if "panic" in r or not r["candidates"]:
                 continue
-            # choose a candidate: prefer one with an affix shape
+            if learned:
+                # the compound learned so far is a user noun now: ask the library with it in the dictionary
+                d2 = dict(d, std=d["std"] + [[c[1], c[0], {"Noun": "Common"}] for c in learned])
+                r = harness([{"op": "kkc_query", "dict": d2, "context": "Normal", "freq": [], "input": rq["input"], "n": 100}])[0]
+                if "panic" in r or not r["candidates"]:
+                    continue
+            # choose a candidate: prefer one with an affix shape (and, the second time, a compound not learned yet)
             cands = r["candidates"]
-            shaped = [i for i, c in enumerate(cands) if affix_shape(c["nodes"][1:-1])]
-            ci = rnd.choice(shaped) if shaped and rnd.random() < 0.8 else rnd.randrange(len(cands))
+            shaped = [i for i, c in enumerate(cands) if affix_shape(c["nodes"][1:-1]) and affix_shape(c["nodes"][1:-1]) not in learned]
+            same_reading = [i for i in shaped if any(affix_shape(cands[i]["nodes"][1:-1])[1] == l[1] for l in learned)]
+            ci = rnd.choice(same_reading) if same_reading else (rnd.choice(shaped) if shaped and rnd.random() < 0.8 else rnd.randrange(len(cands)))
             comp = affix_shape(cands[ci]["nodes"][1:-1])
             # the library's own extractor must agree with the property's shape
             if (cands[ci]["affix"] is not None) != (comp is not None) or (comp and tuple(cands[ci]["affix"]) != comp):
                 res.violation(f"candidate {cands[ci]['text']!r} of {rq['input']!r}: the compound extractor returns {cands[ci]['affix']} but the converted run is {comp}",
                               {"kind": "extractor", "dict": d, "input": rq["input"], "candidate": cands[ci]["text"]})
-            reqs2.append({"kind": "convert", "input": rq["input"], "context": "Normal"})
+            reqs2.append({"kind": "convert", "input": rq["input"], "context": "Normal", "expect_text_at": (ci, cands[ci]["text"])})
             reqs2.append({"kind": "confirm", "session": nconv, "cid": str(ci)})
             nconv += 1
-            exp.append((len(reqs2) - 1, comp, cands[ci]["text"]))
-            break                     # one confirmation per history keeps the library pass and the server in step
-        if not reqs2:
+            exp.append((len(reqs2) - 1, comp, cands[ci]["text"], list(learned)))
+            if comp and comp not in learned:
+                learned.append(comp)
+            if len(exp) == 2 or not comp:
+                break
+        if not exp:
             continue
-        comp = exp[0][1]
-        if comp:
+        for comp in learned:
             reqs2.append({"kind": "convert", "input": comp[1], "context": "Normal", "expect": comp[0]})
             nconv += 1
         reqs2.append({"kind": "restart"})
-        if comp:
+        for comp in learned:
             reqs2.append({"kind": "convert", "input": comp[1], "context": "Normal", "expect": comp[0]})
         items.append((base, reqs2))
-        expect.append(exp[0])
+        expect.append((exp, learned))
     runs = run_histories(items, threads=12)
     nontrivial = 0
-    for hr, (ci, comp, text) in zip(runs, expect):
+    for hr, (exp, learned) in zip(runs, expect):
         for what, detail in hr.problems:
             res.violation(what, {"base": hr.base, "requests": hr.requests, "detail": detail})
-        if len(hr.dumps) <= ci or hr.dumps[ci] is None:
-            continue
-        ue = hr.dumps[ci]["user_entries"]
-        if comp:
-            line = f"{comp[1]}\t{comp[0]}\t/一般名詞/"
-            if ue.count(line) != 1:
-                res.violation(f"confirming {text!r} should teach the compound {comp[0]}/{comp[1]} exactly once; user entries: {ue}", {"base": hr.base, "requests": hr.requests})
-            nontrivial += 1
-        elif ue:
-            res.violation(f"confirming {text!r} (no affix) learned a new word: {ue}", {"base": hr.base, "requests": hr.requests})
         rqs = [r for r in hr.requests if r["kind"] != "malformed"]
+        # the library pass and the server must be talking about the same candidate
+        in_step = all(obs is not None and len(obs["texts"]) > rq["expect_text_at"][0] and obs["texts"][rq["expect_text_at"][0]] == rq["expect_text_at"][1]
+                      for (ev, obs), rq in zip(hr.events, rqs) if "expect_text_at" in rq)
+        if not in_step:
+            continue
+        for ci, comp, text, before in exp:
+            if len(hr.dumps) <= ci or hr.dumps[ci] is None:
+                continue
+            ue = hr.dumps[ci]["user_entries"]
+            want = [f"{c[1]}\t{c[0]}\t/一般名詞/" for c in before] + ([f"{comp[1]}\t{comp[0]}\t/一般名詞/"] if comp and comp not in before else [])
+            if comp:
+                for line in want:
+                    if ue.count(line) != 1:
+                        res.violation(f"confirming {text!r} should leave the compound line {line!r} exactly once in the user dictionary; user entries: {ue}", {"base": hr.base, "requests": hr.requests})
+                nontrivial += 1
+            elif sorted(ue) != sorted(want):
+                res.violation(f"confirming {text!r} (no affix) changed the user words: {ue}", {"base": hr.base, "requests": hr.requests})
         for (ev, obs), rq in zip(hr.events, rqs):
             if "expect" in rq and obs is not None and rq["expect"] not in obs["texts"][:100]:
                 res.violation(f"the learned compound {rq['expect']!r} is not offered for its reading {rq['input']!r}: {obs['texts']}", {"base": hr.base, "requests": hr.requests})
-            if ev["t"] == "restart" and obs and obs.get("after") and comp:
-                if f"{comp[1]}\t{comp[0]}\t/一般名詞/" not in obs["after"]["user_entries"]:
-                    res.violation("the learned compound does not survive the restart", {"base": hr.base, "requests": hr.requests})
+            if ev["t"] == "restart" and obs and obs.get("after"):
+                for comp in learned:
+                    if f"{comp[1]}\t{comp[0]}\t/一般名詞/" not in obs["after"]["user_entries"]:
+                        res.violation(f"the learned compound {comp[0]} does not survive the restart", {"base": hr.base, "requests": hr.requests})
     n_model = model_histories(res, PROP, runs)
     cov = {
         "obligations": info["obligations"], "discharged": info["discharged"],
